@@ -35,8 +35,8 @@ META = dict(
     trusted_base=['numpy mean / cov / slogdet / solve and scipy multigammaln in the independent formulas', 'the harness shims for numpy 2 '
                   '(ModelPrior.logpdf and the likelihood callables return scalars instead of 1-element arrays; values unchanged)',
                   'Float exp / log in the Lean driver vs numpy (compared at 1e-12 relative)'],
-    assumptions=['non-singular sample covariance (n > d + 3 for the unbiased estimator)', 'glasso shrinkage and the semi-parametric '
-                 'likelihood are not in the statement'],
+    assumptions=['non-singular sample covariance (n > d + 3 for the unbiased estimator)', 'the semi-parametric likelihood is not in the statement; graphical-lasso shrinkage is checked with sklearn\'s solver as '
+                 'third party (cases it refuses as ill-conditioned are skipped)'],
     partial=['the gamma slice sampler is an input stream of the chain model (its draws are logged, not modelled)',
              'unbiasedness of the Ghurye-Olkin estimator itself is a published result; the Monte-Carlo sanity run of the reference formula '
              '(thorough tier) is a labelled statistical test, not a theorem'],
@@ -114,12 +114,14 @@ def lik_case(ctx, rng, reqs, meta, forced=None):
     if rng.random() < .3:
         ssx = np.asfortranarray(ssx) if rng.random() < .5 else np.ascontiguousarray(ssx[:, ::-1])[:, ::-1]     # same values, other memory layout / a strided view
     y = ssx.mean(0) + (rng.choice([3.0, 8.0]) if far else (0.02 if forced else 0.3)) * rs.randn(d) * scale     # (forced cases: psi stays positive definite)
-    kind = rng.choice(['standard', 'standard-whiten', 'standard-warton', 'unbiased', 'unbiased', 'mean', 'variance'])
+    kind = rng.choice(['standard', 'standard-whiten', 'standard-warton', 'standard-glasso', 'unbiased', 'unbiased', 'mean', 'variance'])
     if forced:
         kind, far = forced['kind'], False
     if kind == 'standard-whiten' and d == 1:
         kind = 'standard'             # a 1x1 whitening matrix is not a meaningful setting (np.squeeze makes the observation 0-d)
-    if scale != 1.0 and kind in ('standard-whiten', 'standard-warton'):
+    if scale != 1.0 and kind in ('standard-whiten', 'standard-warton', 'standard-glasso'):
+        kind = 'standard'
+    if kind == 'standard-glasso' and (d == 1 or n < 4 * d):
         kind = 'standard'
     case = dict(part='likelihood', kind=kind, n=n, d=d, far=far, scale=scale, seed=int(rs.randint(2**31)))
     ctx.count('likelihood.scale', '%g' % scale)
@@ -142,6 +144,33 @@ def lik_case(ctx, rng, reqs, meta, forced=None):
                 kw.update(shrinkage='warton', penalty=pen)
                 S2 = warton(S, 1 - pen)
                 case['penalty'] = pen
+            if kind == 'standard-glasso':
+                # graphical-lasso shrinkage (sklearn's solver is third-party, like scipy's densities): the covariance that is shrunk
+                # is the one of the simulations AS THEY ENTER THE DENSITY - whitened if a whitening matrix is given, and of the
+                # standardised columns if `standardise` - every combination of the three options, the full one in every other case
+                from sklearn.covariance import graphical_lasso
+                GL['n'] += 1
+                standardise = GL['n'] % 2 == 1
+                pen = rng.choice([0.05, 0.2])
+                Q, _ = np.linalg.qr(rs.randn(d, d))
+                W = Q @ np.diag(rs.uniform(0.5, 2.0, d))
+                whiten = GL['n'] % 4 != 0
+                X = ssx @ W.T if whiten else np.array(ssx)
+                y2 = W @ y if whiten else y
+                m2 = X.mean(0)
+                C = np.atleast_2d(np.cov(X, rowvar=False))
+                if standardise:
+                    C = np.atleast_2d(np.cov((X - m2) / np.sqrt(np.diag(C)), rowvar=False))
+                try:
+                    S2 = graphical_lasso(C, alpha=pen, max_iter=200)[0]
+                except FloatingPointError:
+                    ctx.count('likelihood.glasso', 'solver refuses this covariance (ill-conditioned): case skipped')
+                    return
+                kw = dict(shrinkage='glasso', penalty=pen, standardise=standardise)
+                if whiten:
+                    kw['whitening'] = W
+                case.update(penalty=pen, standardise=standardise, whitening=whiten)
+                ctx.count('likelihood.glasso', 'whitening=%s standardise=%s' % (whiten, standardise))
             got = float(np.ravel(pm.gaussian_syn_likelihood(ssx, y.reshape(1, -1), **kw))[0])
             exp, logdet, q = mvn_logpdf(y2, m2, S2)
             reqs.append(dict(op='C20.mvn', log2pi=bits(log2pi), d=bits(d), logdet=bits(logdet), quad=bits(q)))
@@ -167,6 +196,9 @@ def lik_case(ctx, rng, reqs, meta, forced=None):
     same = (exp == got) or (math.isfinite(exp) and math.isfinite(got) and math.isclose(got, exp, rel_tol=1e-7, abs_tol=1e-8))
     if not same:
         ctx.fail_input(case, 'the %s synthetic log-likelihood is %r, the stated formula gives %r' % (kind, got, exp), exp, got)
+
+
+GL = dict(n=0)
 
 
 def go_monte_carlo(ctx):
@@ -595,7 +627,10 @@ def process(ctx, n_lik, n_tr, n_ratio, n_chain):
     reqs, meta = [], []
     # 30 summaries on a very large / very small scale: det((n-1) Sigma) is ~1e350 / ~1e-430, its logarithm is an ordinary number
     for fz in (dict(kind='unbiased', d=30, scale=1e5), dict(kind='unbiased', d=30, scale=1e-8), dict(kind='standard', d=30, scale=1e5),
-               dict(kind='variance', d=30, scale=1e-8)):
+               dict(kind='variance', d=30, scale=1e-8),
+               # graphical-lasso shrinkage with whitening and standardisation, in every run (two cases: both option patterns)
+               dict(kind='standard-glasso', d=3, scale=1.0), dict(kind='standard-glasso', d=2, scale=1.0),
+               dict(kind='standard-glasso', d=4, scale=1.0)):
         if not ctx.enough():
             lik_case(ctx, rng, reqs, meta, forced=fz)
     for fn, n in ((lik_case, n_lik), (transform_case, n_tr), (ratio_case, n_ratio)):
